@@ -22,7 +22,7 @@ TEXT = {
                  "mergeRowRanges have the same union, are pairwise separated and ordered, and scanning them in turn visits exactly rows.filter(inRowSet), hence each row once in "
                  "ascending order (successor lemma k<x <-> k++[0]<=x, merge-loop invariants, flatMap-over-separated-ranges lemma); empty RowSet = whole table; inverted range rejected; "
                  "rows_limit = take. Tied to the code by the complete enumeration the property asks for (every set of <=2 ranges x <=1 key over the 7 adversarial keys, 3 engines) "
-                 "plus random programs and multi-message tables. The merge phase works in place (write pointer trailing the read index): that array loop, written with Go's reads/writes/re-slice, is proved to compute exactly the functional fold. Chunk stream: decode (encode rows) = rows for every list of rows (decoder = the client state machine: key/family/qualifier on a row's first chunk, one commit, no orphan chunk), messages concatenate to the stream and are never empty. SampleRowKeys: for EVERY sequence of random draws the answer is a subsequence of the stored keys ending with the last, offsets non-decreasing; the judge used on the implementation's answers (400 calls per request) is proved exact and is evaluated in Lean on every answer and every chunk stream seen. keysOutOfRange and messageOnInvalidKeyRanges are regenerated from the Go text on every run and proved equal to the Model's.",
+                 "plus random programs and multi-message tables. The merge phase works in place (write pointer trailing the read index): that array loop, written with Go's reads/writes/re-slice, is proved to compute exactly the functional fold, and the loop's three closures (endCmp, the sort.Slice comparator, merge) are regenerated from the Go text on every run and proved equal to the Model's endLt, srLess, merge1. Chunk stream: decode (encode rows) = rows for every list of rows (decoder = the client state machine: key/family/qualifier on a row's first chunk, one commit, no orphan chunk), messages concatenate to the stream and are never empty. SampleRowKeys: for EVERY sequence of random draws the answer is a subsequence of the stored keys ending with the last, offsets non-decreasing; the judge used on the implementation's answers (400 calls per request) is proved exact and is evaluated in Lean on every answer and every chunk stream seen. keysOutOfRange and messageOnInvalidKeyRanges are regenerated from the Go text on every run and proved equal to the Model's.",
         "note": COMMON_NOTE,
         "technique": "Lean 4 proof (order lemmas, loop invariants, induction over sorted rows); exhaustive + random differential correspondence",
     },
